@@ -7,7 +7,8 @@ EXTENDS Naturals, Sequences, FiniteSets, TLC, Tables
 
 CONSTANTS I,          \* ping interval in ticks
           Horizon,    \* how far time runs
-          MaxConns    \* connections over the run
+          MaxConns,   \* connections over the run
+          MaxPause    \* times an application on the Leader's side pauses a subchannel (0: back-pressure not modelled)
 
 VARIABLES now,
           tt,         \* TrafficTimer state
@@ -19,11 +20,15 @@ VARIABLES now,
           stopped,
           conns,
           internal,   \* inputs the TrafficTimer had no transition for
+          hold,       \* an application on the Leader's side is asking for a pause: Inbound has stopped reading the peer connection
+                      \* (and, the request carrying over, will not read the next one either)
+          unread,     \* pings whose pong the peer has written and the Leader has not read
+          npause,
           last
-vars == <<now, tt, timer, conn, usable, pings, dropped, stopped, conns, internal, last>>
+vars == <<now, tt, timer, conn, usable, pings, dropped, stopped, conns, internal, hold, unread, npause, last>>
 
 Init == /\ now = 0 /\ tt = Init_TT /\ timer = 0 /\ conn = 0 /\ usable = FALSE /\ pings = <<>> /\ dropped = <<>>
-        /\ stopped = FALSE /\ conns = 0 /\ internal = <<>> /\ last = <<"Init", 0>>
+        /\ stopped = FALSE /\ conns = 0 /\ internal = <<>> /\ hold = FALSE /\ unread = {} /\ npause = 0 /\ last = <<"Init", 0>>
 
 \* ---- TrafficTimer input: returns the new [tt, timer, pings, dropped]
 \* begin_timing = Manager._send_ping_reset_timer: send a ping (transmitted only if Outbound has the connection),
@@ -37,7 +42,7 @@ RunOuts(r, outs) ==
                         [r EXCEPT !.pings = Append(@, [conn |-> conn, sent |-> now, answered |-> 0, lost |-> ~(usable /\ conn > 0)]),
                                   !.timer = IF @ = 0 THEN now + I ELSE @ + I]
                    [] o = "signal_reconnect" ->
-                        IF conn > 0 THEN [r EXCEPT !.dropped = Append(@, [conn |-> conn, at |-> now])] ELSE r
+                        IF conn > 0 THEN [r EXCEPT !.dropped = Append(@, [conn |-> conn, at |-> now, held |-> hold])] ELSE r
                    [] OTHER -> r
        IN RunOuts(r1, Tail(outs))
 TTInput(inp, t0) ==
@@ -53,23 +58,47 @@ Set(r) == /\ tt' = r.tt /\ timer' = r.timer /\ pings' = r.pings /\ dropped' = r.
 NextEvent == IF timer > 0 THEN timer ELSE Horizon + 1
 Tick == /\ now < Horizon /\ (timer = 0 \/ now < timer)
         /\ now' = now + 1 /\ last' = <<"Tick", now + 1>>
-        /\ UNCHANGED <<tt, timer, conn, usable, pings, dropped, stopped, conns, internal>>
+        /\ UNCHANGED <<tt, timer, conn, usable, pings, dropped, stopped, conns, internal, hold, unread, npause>>
 
 \* the interval timer expires: timer_expired() clears _timer and tells the TrafficTimer
 TimerFires == /\ timer > 0 /\ now = timer
               /\ Set(TTInput("interval_elapsed", 0))
               /\ last' = <<"TimerFires", now>>
-              /\ UNCHANGED <<now, conn, usable, stopped, conns>>
+              /\ UNCHANGED <<now, conn, usable, stopped, conns, hold, unread, npause>>
 
 \* a pong for ping k arrives (the peer answers within one interval, or never)
 Pong(k) == /\ k \in 1..Len(pings) /\ pings[k].conn = conn /\ conn > 0 /\ ~pings[k].lost /\ pings[k].answered = 0
            /\ now < pings[k].sent + I /\ now >= pings[k].sent
-           /\ LET r == TTInput("traffic_seen", timer) IN
-              /\ tt' = r.tt /\ timer' = r.timer /\ dropped' = r.dropped
-              /\ internal' = IF r.err # "" THEN Append(internal, r.err) ELSE internal
-              /\ pings' = [r.pings EXCEPT ![k].answered = IF now = 0 THEN 1 ELSE now]
+           /\ IF hold
+                THEN \* the peer has answered; the Leader is not reading: the pong waits in the socket
+                     /\ pings' = [pings EXCEPT ![k].answered = IF now = 0 THEN 1 ELSE now]
+                     /\ unread' = unread \cup {k}
+                     /\ UNCHANGED <<tt, timer, dropped, internal>>
+                ELSE LET r == TTInput("traffic_seen", timer) IN
+                     /\ tt' = r.tt /\ timer' = r.timer /\ dropped' = r.dropped
+                     /\ internal' = IF r.err # "" THEN Append(internal, r.err) ELSE internal
+                     /\ pings' = [r.pings EXCEPT ![k].answered = IF now = 0 THEN 1 ELSE now]
+                     /\ UNCHANGED unread
            /\ last' = <<"Pong", k>>
-           /\ UNCHANGED <<now, conn, usable, stopped, conns>>
+           /\ UNCHANGED <<now, conn, usable, stopped, conns, hold, npause>>
+
+DroppedAtNow == {dropped[i].at : i \in {j \in 1..Len(dropped) : dropped[j].conn = conn}}
+\* ---- back-pressure on the Leader's side (Inbound: the peer connection is not read while any subchannel asks for a pause)
+\* (the harness performs these two between timer events: not at the very instant an expiry is due)
+TimerDue == timer > 0 /\ now = timer
+\* the Leader reads its connection unless it has told the transport to go away (stop, or the monitor's own disconnect())
+Reading == conn > 0 /\ ~stopped /\ DroppedAtNow = {}
+AppPause == /\ ~hold /\ npause < MaxPause /\ conn > 0 /\ ~stopped /\ ~TimerDue
+            /\ hold' = TRUE /\ npause' = npause + 1
+            /\ last' = <<"AppPause", now>>
+            /\ UNCHANGED <<now, tt, timer, conn, usable, pings, dropped, stopped, conns, internal, unread>>
+\* the application lets go: whatever waited in the socket of the connection in use is read at once
+AppResume == /\ hold /\ hold' = FALSE /\ unread' = {} /\ ~TimerDue
+             /\ IF unread # {} /\ Reading
+                  THEN LET r == TTInput("traffic_seen", timer) IN Set(r)
+                  ELSE UNCHANGED <<tt, timer, pings, dropped, internal>>
+             /\ last' = <<"AppResume", now>>
+             /\ UNCHANGED <<now, conn, usable, stopped, conns, npause>>
 
 \* ---- connections
 \* connector_connection_made: TrafficTimer.got_connection() FIRST (its ping is not transmitted: Outbound has no
@@ -78,26 +107,27 @@ ConnMade == /\ conn = 0 /\ ~stopped /\ conns < MaxConns
             /\ LET r == TTInput("got_connection", timer) IN Set(r)
             /\ conn' = conns + 1 /\ conns' = conns + 1 /\ usable' = TRUE
             /\ last' = <<"ConnMade", conns + 1>>
-            /\ UNCHANGED <<now, stopped>>
+            /\ UNCHANGED <<now, stopped, hold, unread, npause>>
 \* the connection is lost (for whatever reason, including our own disconnect()): lost_connection, timer cancelled
 ConnLost == /\ conn > 0
             /\ LET r == TTInput("lost_connection", 0) IN Set(r)
-            /\ conn' = 0 /\ usable' = FALSE
+            /\ conn' = 0 /\ usable' = FALSE /\ unread' = {}
             /\ last' = <<"ConnLost", conn>>
-            /\ UNCHANGED <<now, stopped, conns>>
+            /\ UNCHANGED <<now, stopped, conns, hold, npause>>
 \* dilation is stopped: abandon_connection cancels the timer and disconnects; the loss follows
 Stop == /\ ~stopped /\ stopped' = TRUE
         /\ timer' = 0
         /\ last' = <<"Stop", now>>
-        /\ UNCHANGED <<now, tt, conn, usable, pings, dropped, conns, internal>>
+        /\ UNCHANGED <<now, tt, conn, usable, pings, dropped, conns, internal, hold, unread, npause>>
 
 \* a record that is not a pong arrives on the connection in use (an ack, data of some subchannel).  It says nothing about whether
 \* the peer answers our pings - a half-open connection still delivers such records - and leaves the monitor alone
 OtherTraffic == /\ conn > 0 /\ ~stopped
                 /\ last' = <<"OtherTraffic", conn>>
-                /\ UNCHANGED <<now, tt, timer, conn, usable, pings, dropped, stopped, conns, internal>>
+                /\ UNCHANGED <<now, tt, timer, conn, usable, pings, dropped, stopped, conns, internal, hold, unread, npause>>
 
 Next == Tick \/ TimerFires \/ ConnMade \/ ConnLost \/ Stop \/ OtherTraffic \/ (\E k \in 1..(Horizon + 2) : Pong(k))
+        \/ AppPause \/ AppResume
 Spec == Init /\ [][Next]_vars
 
 \* ---- properties ------------------------------------------------------------------------------------------------------
@@ -109,6 +139,10 @@ DroppedAt(c) == {dropped[i].at : i \in {j \in 1..Len(dropped) : dropped[j].conn 
 \* (b) a connection whose peer answers every ping within one interval is never dropped by the monitor
 ResponsiveNeverDropped == \A i \in 1..Len(dropped) :
     \E k \in Sent(dropped[i].conn) : pings[k].answered = 0 /\ pings[k].sent + I <= dropped[i].at
+\* ... which the code does not keep once back-pressure is in the picture (MaxPause > 0): a pause held across two expiries leaves
+\* the pongs unread and the monitor gives up on a peer that answered (known finding, DESIGN 7.4).  What it does keep:
+ResponsiveNeverDroppedUnlessHeld == \A i \in 1..Len(dropped) :
+    dropped[i].held \/ \E k \in Sent(dropped[i].conn) : pings[k].answered = 0 /\ pings[k].sent + I <= dropped[i].at
 \* (a) a silent connection is dropped no later than the second expiry after the last answered ping, i.e. under
 \*     three intervals: if a transmitted ping has been unanswered for 2 intervals, the connection is gone or dropped
 LastAnsweredSent(c) == IF Answered(c) = {} THEN 0 ELSE CHOOSE t \in {pings[k].sent : k \in Answered(c)} :
